@@ -1,0 +1,107 @@
+//go:build verif
+
+// Copyright 2025 Huawei Cloud Computing Technologies Co., Ltd.
+//
+// Licensed under the Apache License, Version 2.0 (the "License");
+// you may not use this file except in compliance with the License.
+// You may obtain a copy of the License at
+//
+// http://www.apache.org/licenses/LICENSE-2.0
+//
+// Unless required by applicable law or agreed to in writing, software
+// distributed under the License is distributed on an "AS IS" BASIS,
+// WITHOUT WARRANTIES OR CONDITIONS OF ANY KIND, either express or implied.
+// See the License for the specific language governing permissions and
+// limitations under the License.
+
+package meta
+
+import (
+	"bytes"
+	"io"
+
+	"github.com/hashicorp/raft"
+	"github.com/openGemini/openGemini/lib/config"
+	"github.com/openGemini/openGemini/lib/logger"
+	meta2 "github.com/openGemini/openGemini/lib/util/lifted/influx/meta"
+)
+
+// Exports of the meta state machine for runtime monitors (build tag verif only): the
+// real storeFSM over a fresh catalogue, without raft, network or background services.
+
+// VerifFSMOptions are the [meta] settings the state machine itself reads.
+type VerifFSMOptions struct {
+	PtNumPerNode        uint32 `json:"ptnum_pernode"`
+	NumOfShards         int32  `json:"num_of_shards"`
+	RetentionAutoCreate bool   `json:"retention_autocreate"`
+	ExpandShardsEnable  bool   `json:"expand_shards_enable"`
+	UseIncSyncData      bool   `json:"inc_sync_data"`
+	SchemaCleanEn       bool   `json:"schema_clean_enable"`
+}
+
+// VerifNewFSM returns the real state machine of a fresh store built by NewStore.
+func VerifNewFSM(o VerifFSMOptions) raft.FSM {
+	c := config.NewMeta()
+	c.PtNumPerNode = o.PtNumPerNode
+	c.NumOfShards = o.NumOfShards
+	c.RetentionAutoCreate = o.RetentionAutoCreate
+	c.ExpandShardsEnable = o.ExpandShardsEnable
+	c.UseIncSyncData = o.UseIncSyncData
+	c.SchemaCleanEn = o.SchemaCleanEn
+	s := NewStore(c, "127.0.0.1:8091", "127.0.0.1:8092", "127.0.0.1:8088")
+	s.Logger = logger.NewLogger(0)
+	return (*storeFSM)(s)
+}
+
+// VerifFSMData returns the live catalogue of a state machine made by VerifNewFSM.
+func VerifFSMData(f raft.FSM) *meta2.Data {
+	return f.(*storeFSM).data
+}
+
+// VerifFSMSetData replaces the live catalogue (used to branch an enumeration).
+func VerifFSMSetData(f raft.FSM, d *meta2.Data) {
+	fsm := f.(*storeFSM)
+	fsm.data = d
+	fsm.restoreCQNames()
+}
+
+// VerifFSMCQNames returns the continuous query name cache kept beside the catalogue.
+func VerifFSMCQNames(f raft.FSM) []string {
+	return append([]string(nil), f.(*storeFSM).cqNames...)
+}
+
+type verifSink struct {
+	bytes.Buffer
+}
+
+func (s *verifSink) ID() string    { return "verif" }
+func (s *verifSink) Cancel() error { return nil }
+func (s *verifSink) Close() error  { return nil }
+
+// VerifPersist runs the snapshot's Persist into memory and returns the bytes.
+func VerifPersist(snap raft.FSMSnapshot) ([]byte, error) {
+	sink := &verifSink{}
+	if err := snap.Persist(sink); err != nil {
+		return nil, err
+	}
+	snap.Release()
+	return sink.Bytes(), nil
+}
+
+// VerifSnapshotBytes is Snapshot followed by Persist.
+func VerifSnapshotBytes(f raft.FSM) ([]byte, error) {
+	snap, err := f.Snapshot()
+	if err != nil {
+		return nil, err
+	}
+	return VerifPersist(snap)
+}
+
+// VerifRestoreNew restores snapshot bytes into a fresh state machine.
+func VerifRestoreNew(o VerifFSMOptions, b []byte) (raft.FSM, error) {
+	f := VerifNewFSM(o)
+	if err := f.Restore(io.NopCloser(bytes.NewReader(b))); err != nil {
+		return nil, err
+	}
+	return f, nil
+}
